@@ -344,6 +344,7 @@ static std::vector<std::string> hist_gen(const GenArgs &ga) {
       // text -> programs (+ error objects) -> free: the parser's own ownership rules, on valid and on
       // mildly invalid text (unknown opcode, undefined variable, duplicate declaration, text cut short)
       l += strf(" k=%d mut=%d at=%d errs=%d", (int)pr.below(100000), (int)pr.below(5), (int)pr.below(1000), (int)pr.below(2));
+      l += strf(" more=%d init=%d", (int)pr.below(3), (int)pr.chance(1, 3));
     } else if (op == "append") {
       // the program is edited after it was built (and possibly compiled): a valid extra instruction, or one
       // whose operand sizes do not match (the next compile must then fail fatally and leave nothing behind)
@@ -761,6 +762,8 @@ static void check_after_op(State &st, const Layout *before, bool was_alloc_op, c
   }
   // A descriptor may legitimately be kept for as long as a mapping made from it lives (bounded by the number
   // of regions); one that is open with no mapping left is leaked -- every failed attempt would add another.
+  if (st.O("fd") && fs::enabled() && fs::double_munmaps() != 0)
+    c.violation("crash", "munmap-of-range-already-unmapped", strf("the library unmapped %d address range(s) it had already unmapped: in a process with other threads that destroys whatever was mapped there in between", fs::double_munmaps()));
   if (st.O("fd") && fs::enabled() && fs::open_unmapped_fds() != 0)
     c.violation("fd-leak", "descriptor-open-after-op", strf("%d simulated descriptor(s) still open after the operation although no mapping made from them is alive (%s)", fs::open_unmapped_fds(), fs::open_fd_desc().c_str()));
 }
@@ -1058,6 +1061,8 @@ static void hist_run(const std::vector<std::string> &plan, Child &c) {
         c.violation("classification", "probe-failed-but-jit-enabled", "no executable mapping could be obtained at init but backup/emulate were not forced");
     }
   }
+  if (st.O("fd") && fs::double_munmaps() != 0)
+    c.violation("crash", "munmap-of-range-already-unmapped", strf("orc_init unmapped %d address range(s) it had already unmapped: in a process with other threads that destroys whatever was mapped there in between", fs::double_munmaps()));
   if (st.O("fd") && fs::open_unmapped_fds() != 0)
     c.violation("fd-leak", "descriptor-open-after-init", strf("%d simulated descriptor(s) still open after orc_init although no mapping made from them is alive", fs::open_unmapped_fds()));
   c.state(fnv(ist.trace));
@@ -1198,7 +1203,10 @@ static void hist_run(const std::vector<std::string> &plan, Child &c) {
           lines.resize(2 + at % (lines.size() - 2));
         }
         std::string src;
+        // a source file usually holds several functions, and may name an init function for all of them
+        if (kvi(w, "init", 0)) src += strf(".init orcsim_init_%d\n", (int)kvi(w, "k"));
         for (auto &ln : lines) src += ln + "\n";
+        for (int more = 1; more <= (int)kvi(w, "more", 0); more++) src += "\n" + corpus_text((int)kvi(w, "k") + more);
         OrcProgram **progs = nullptr;
         int np = 0, ne = 0;
         OrcParseError **errs = nullptr;
